@@ -55,10 +55,11 @@ def extra(tier, rng, build_cache, known):
 
 def gen(rng, tier):
     n = {"quick": 120, "thorough": 1500, "search": 600}[tier]
-    return [poolcases.gen_case(rng, npools=1 if i % 3 else 2) for i in range(n)]
+    return [poolcases.gen_keepalive_run(rng) if i % 6 == 5 else poolcases.gen_case(rng, npools=1 if i % 3 else 2)
+            for i in range(n)]
 
 
 PINNED = ['C01_refuted_stolen_worker_wedges_pool', 'C01_single_pool', 'C01_no_call_diverges', 'C01_result_is_own', 'C01_single_pool_no_defect', 'C01_ring_exclusive_pushes_are_kept', 'C01_ring_single_producer', 'C01_refuted_ring_multi_producer']
 LEVEL_TEXT = "Executable Gallina model of CoroutinePool (submit, scheduling pass with worker growth, worker loop, task run, results, cancel, clean, stop) and a model-independent oracle over observed histories: a task starts at most once and only if accepted, finishes at most once, after a pass that was not cut by its deadline nothing accepted is stranded (whatever has not started is waiting for a worker slot, whatever started is finished, cancelled or legitimately parked), no pass fails or diverges. Theorem over ALL well-formed single-pool histories: the oracle accepts the model's own run, and no pass or stop of such a history diverges (termination of the worker loop, the scheduling pass and the stop loop proved by a decreasing potential); stored results are the task's own outcome (body_outcome) or the cancel/stop error, after every prefix; with one pool the two-pool defects cannot arise (no premise). Concurrent submitters: a small-step model of the local ring's producer side (st3 push: load tail, write slot, publish) with a theorem for any number of producers and every exclusive schedule (nothing lost, order kept) and a REFUTATION for two concurrent producers, reproduced on the real pool by racing submit_task calls (recorded finding ring_multi_producer). With two pools on the process-wide queues the property is REFUTED by a theorem with a concrete witness (a stolen worker wedges the thief's pass), reproduced on the real code as a recorded finding. Tied to /repo by running the same histories on real pools (one per child process, virtual clock) and comparing every observation with the model's inside Coq."
-LEVEL_NOTE = "Trusted: Coq kernel + vm_compute; hand transcription of co_pool/mod.rs, task.rs and the parts of scheduler.rs it uses (Sched/Pool.v over Sched/Sched.v, Coroutine/Co.v, Queue/OWS.v), validated on the sampled histories only; one scheduling thread at a time (the pool's scheduling half is !Sync), virtual clock (hooks H1/H2), DashMap/DashSet as association lists, process-global task/coroutine queues and cancel sets modelled as shared state of all pools. The single-pool theorems assume wf_pool1: ONE pool with min_size 0, keep_alive_time 0, max_size >= 1, operations naming submitted tasks, task bodies that keep the coroutine API contract (no self-cancel, syscall states well bracketed), clock steps not below the model clock; the evidence counts how many generated histories satisfy it (tag wf_pool1). Histories with two pools, or with keep-alive/min-size (keepalive_stop family), are covered by the correspondence and the oracle only. No axioms (every theorem closed under the global context)."
+LEVEL_NOTE = "Trusted: Coq kernel + vm_compute; hand transcription of co_pool/mod.rs, task.rs and the parts of scheduler.rs it uses (Sched/Pool.v over Sched/Sched.v, Coroutine/Co.v, Queue/OWS.v), validated on the sampled histories only; one scheduling thread at a time (the pool's scheduling half is !Sync), virtual clock (hooks H1/H2), DashMap/DashSet as association lists, process-global task/coroutine queues and cancel sets modelled as shared state of all pools. The single-pool theorems assume wf_pool1: ONE pool with min_size 0, ANY keep_alive_time, max_size >= 1, a clock that does not reach u64::MAX while a keep-alive is pending (for C01/C11), operations naming submitted tasks, task bodies that keep the coroutine API contract (no self-cancel, syscall states well bracketed), clock steps not below the model clock; the evidence counts how many generated histories satisfy it (tag wf_pool1). Histories with two pools, or with a minimum size, are covered by the correspondence and the oracle only. No axioms (every theorem closed under the global context)."
 TECHNIQUE = 'Coq proof (simulation invariant over all histories of a Gallina pool model; finite-state closure lifted to all schedules for the wait/notify and signal protocols) + differential correspondence inside Coq + forced real-thread schedules through cfg-guarded pause points'
